@@ -297,8 +297,29 @@ def make_strategy(symbol, script, ctx):
                                   resting=[getattr(o, '_vf_ord', None) for o in store.orders.get_orders(EX, symbol) if o.is_active]))
             return ans
 
+        def _ref_price(self, r):
+            """Reference price of an entry: the current price, or a value read from the candles the strategy can see."""
+            ref = r.get('entry_ref')
+            if not ref:
+                return self.price
+            if ref in ('high', 'low', 'open'):
+                return float({'high': self.high, 'low': self.low, 'open': self.open}[ref])
+            dtf = script.get('data_tf')
+            if dtf:
+                dc = self.get_candles(self.exchange, symbol, dtf)
+                if len(dc):
+                    if ref == 'data_high':
+                        return float(dc[-1][3])
+                    if ref == 'data_low':
+                        return float(dc[-1][4])
+                    if ref == 'data_prev_close' and len(dc) > 1:
+                        return float(dc[-2][2])
+                    if ref == 'data_open':
+                        return float(dc[-1][1])
+            return self.price
+
         def _entries(self, r, sign):
-            p = self.price
+            p = self._ref_price(r)
             pts = []
             for frac, off in r.get('entry', [[1, 0]]):
                 pts.append((unit * frac, _price(p, off if isinstance(off, dict) else sign * off, tick)))
